@@ -194,6 +194,8 @@ def dirhash(d):
     h = hashlib.sha1()
     for dp, dn, fn in sorted(os.walk(d)):
         dn.sort()
+        for x in dn:      # directories count as well: an EMPTY token directory (mkdir done, token.object not yet created) is a state of its own
+            h.update(b"dir:" + os.path.relpath(os.path.join(dp, x), d).encode() + b"\2")
         for f in sorted(fn):
             q = os.path.join(dp, f)
             h.update(os.path.relpath(q, d).encode() + b"\0" + open(q, "rb").read() + b"\1")
